@@ -327,6 +327,17 @@ def r04_4(ctx, fx):
             ok = bool(sws) and all(fn.only_via(n, sws[0][0], fn.variant_edges(sws[0], "None")) for n in done)
             ctx.ob("R04.4", "poll_flush/Ok-only-with-%s-empty" % what, ok, site=fn.site(done[0]) if done else fn.site(fn.entry), cfg=fx.cfg,
                    detail="a completing return must lie behind the None edge of %s: otherwise send()/flush() report success with data still queued" % what)
+    if take and pop:
+        # a new frame is taken from the queue only when no partially written frame is stashed (otherwise a frame is dropped
+        # or the order changes)
+        tsw = [sw for sw in fn.discr_switches() if sw[1][0] in fn.copies_of(take[0].dest[0]) and len(sw[1]) == 1]
+        ok = bool(tsw) and all(fn.only_via(p.node, tsw[0][0], fn.variant_edges(tsw[0], "None")) for p in pop)
+        ctx.ob("R04.4", "poll_flush/next-frame-popped-only-if-nothing-stashed", ok, site=fn.site(pop[0].node), cfg=fx.cfg,
+               detail="pending_out_frames.pop_front() must lie behind the None edge of pending_out_frame.take()")
+        # the frame written is the stashed one or the popped one
+        for i, pw in enumerate(pws[:1]):
+            rs = guards.rootstrs(fn, pw.args[2]) if len(pw.args) > 2 else set()
+            ctx.ob("R04.4", "poll_flush/writes-the-stashed-or-popped-frame", any("Option::take" in x for x in rs) and any("pop_front" in x for x in rs), site=fn.site(pw.node), cfg=fx.cfg, detail=str(sorted(x for x in rs if "call:" in x))[:300])
     for i, pw in enumerate(pws):
         cuts = refine_cuts(fn, pw, ["Pending"])
         r = fn.reach([pw.node], cut=cuts, after=True, stop=[t.node for t in take])
